@@ -559,7 +559,8 @@ func drawEntry(t *rapid.T) EntrySpec {
 	if rapid.IntRange(0, 3).Draw(t, "has_comment") == 0 {
 		e.Comment = strings.TrimSpace(textGen.Draw(t, "comment"))
 	}
-	e.Sequence = vk.DrawSeq(t, "sequence", "ACDEFGHIKLMNPQRSTVWY", 1, 400).String()
+	// the 20 amino acids, or all 26 letters UniProtKB sequences use (U selenocysteine, O pyrrolysine, B Z J X)
+	e.Sequence = vk.DrawSeq(t, "sequence", rapid.SampledFrom([]string{"ACDEFGHIKLMNPQRSTVWY", "ACDEFGHIKLMNPQRSTVWY", "ACDEFGHIKLMNPQRSTVWYUOBZJX"}).Draw(t, "sequence_alphabet"), 1, 400).String()
 	if rapid.IntRange(0, 2).Draw(t, "annotated") == 0 { // an entry annotated the way the data bank's are
 		e.Extras = rapid.SliceOfN(rapid.IntRange(0, len(extras)-1), 1, 12).Draw(t, "extras")
 		e.Precursor = rapid.Bool().Draw(t, "precursor")
